@@ -611,3 +611,42 @@ impl<'a> hb_ot_map_builder_t<'a> {
         Some(())
     }
 }
+
+// ---- verification hooks (compiled only with `--cfg rustybuzz_verif`; add-only read accessors used by
+// the external correspondence harness of property C14: feature infos before compile, compiled fields).
+#[cfg(rustybuzz_verif)]
+impl hb_ot_map_builder_t<'_> {
+    /// (tag, seq, max_value, flags, default_value) of every collected feature, in insertion order.
+    pub fn verif_feature_infos(&self) -> Vec<(hb_tag_t, usize, u32, u32, u32)> {
+        self.feature_infos
+            .iter()
+            .map(|i| (i.tag, i.seq, i.max_value, i.flags, i.default_value))
+            .collect()
+    }
+
+    /// The answer of the font queries `collect_feature_maps` makes for a feature (`found`).
+    pub fn verif_found(&self, tag: hb_tag_t, flags: hb_ot_map_feature_flags_t) -> bool {
+        if self.has_feature(tag) {
+            return true;
+        }
+        if flags & F_GLOBAL_SEARCH != 0 {
+            for (_, table) in self.face.layout_tables() {
+                if table.features.index(tag).is_some() {
+                    return true;
+                }
+            }
+        }
+        false
+    }
+}
+
+#[cfg(rustybuzz_verif)]
+impl hb_ot_map_t {
+    /// (tag, shift, mask, one_mask) of every compiled feature, in map order.
+    pub fn verif_features(&self) -> Vec<(hb_tag_t, u32, hb_mask_t, hb_mask_t)> {
+        self.features
+            .iter()
+            .map(|f| (f.tag, f.shift, f.mask, f.one_mask))
+            .collect()
+    }
+}
